@@ -8,9 +8,9 @@ TRIVIAL_CFG = "INIT Init\nNEXT Next\nCONSTANTS FieldMode = \"bn254\"\nP = 7\n"
 R = 21888242871839275222246405745257275088548364400416034343698204186575808495617
 
 
-def mc_cfg(mode, p):
-    return ("SPECIFICATION Spec\nCONSTANTS FieldMode = \"%s\"\nP = %d\nInputs1 <- I1\nInputs2 <- I2\nMaxCalls <- MC\n"
-            "INVARIANTS MachineIsFunction CallsIndependent Export\nCHECK_DEADLOCK FALSE\n" % (mode, p))
+def mc_cfg(mode, p, chain=False):
+    return ("SPECIFICATION Spec\nCONSTANTS FieldMode = \"%s\"\nP = %d\nInputs1 <- I1\nInputs2 <- I2\nMaxCalls <- MC\nChain = %s\n"
+            "INVARIANTS MachineIsFunction CallsIndependent Export\nCHECK_DEADLOCK FALSE\n" % (mode, p, "TRUE" if chain else "FALSE"))
 
 
 def run_module(i1, i2, maxcalls):
@@ -80,6 +80,11 @@ def run(ctx):
     i2 = "{<<0,0>>, <<1,2>>, <<2,1>>, <<12,12>>}"
     r = ctx.tlc("Run", mc_cfg("small", p), files={"Run.tla": run_module(i1, i2, 2 if ctx.quick else 3)}, label="PoseidonMC sessions p=13", timeout=900)
     replay("small", p, r["traces"], r1cs=False)
+    # chained sessions: digests fed into later hashes and used again (Merkle path / empty-subtree chain), tiny field + BN254 R1CS
+    r = ctx.tlc("Run", mc_cfg("small", 47, chain=True), files={"Run.tla": run_module("{3}", "{<<1, 2>>}", 3)}, label="PoseidonMC chained sessions p=47", timeout=900)
+    replay("small", 47, r["traces"], r1cs=not ctx.quick)
+    r = ctx.tlc("Run", mc_cfg("bn254", 7, chain=True), files={"Run.tla": run_module('{"0"}', '{<<"1", "2">>}', 2 if ctx.quick else 3)}, label="PoseidonMC chained sessions bn254", timeout=900)
+    replay("bn254", R, r["traces"], r1cs=True)
     # (ii) BN254: value classes as singletons and pairs; call sequences
     vals = bn_values(ctx, 4 if ctx.quick else 24)
     s = lambda v: '"%d"' % v
